@@ -6,7 +6,9 @@ from ai_edge_quantizer import quantizer as aeq, recipe_manager
 
 TRACE = []
 PHASE = [None]
+CURRENT_OP = [None]
 ENABLED = False
+OP_IDENTITY = [False]
 
 
 def install():
@@ -22,9 +24,30 @@ def install():
     r = orig(self, op, scope)
     if PHASE[0] is not None:
       alg = r[0]
-      TRACE.append((PHASE[0], str(getattr(op, 'value', op)), scope, str(getattr(alg, 'value', alg))))
+      TRACE.append((PHASE[0], str(getattr(op, 'value', op)), scope, str(getattr(alg, 'value', alg)), CURRENT_OP[0]))
+      CURRENT_OP[0] = None
     return r
   rm.get_quantization_configs = spy
+  # operator identity: both phases compute the scope right before resolving; remember which operator it was for
+  from ai_edge_quantizer import calibrator, params_generator
+  hooked = 0
+  for cls in (getattr(calibrator, 'Calibrator', None), getattr(params_generator, 'ParamsGenerator', None)):
+    f = getattr(cls, '_get_op_scope', None) if cls else None
+    if f is None:
+      continue
+
+    def mk2(f):
+      def w(self, op, subgraph_tensors):
+        try:
+          sg_id = subgraph_tensors[0].name if len(subgraph_tensors) else b''
+          CURRENT_OP[0] = (bytes(sg_id).decode('utf8', 'replace'), tuple(int(o) for o in op.outputs))
+        except Exception:  # pylint: disable=broad-except
+          CURRENT_OP[0] = None
+        return f(self, op, subgraph_tensors)
+      return w
+    setattr(cls, '_get_op_scope', mk2(f))
+    hooked += 1
+  OP_IDENTITY[0] = hooked == 2
   for name in ('calibrate', 'quantize'):
     f = getattr(aeq.Quantizer, name)
 
